@@ -88,3 +88,39 @@ Theorem C08_curve_edge_rows_partial : forall x1 y1 x2 y2 cx cy w, y1 < y2 ->
      4 * (Z.min (Z.min x1 x2) cx / 4) <= rnd (e_fullx (edge_at_gen y p)) <= 4 * ((Z.max (Z.max x1 x2) cx + 3) / 4)).
 Proof. exact curve_edge_rows. Qed.
 Print Assumptions C08_curve_edge_rows_partial.
+
+(* ---- how far the rasterised polyline is from the exact curve (CurveMetric.v) ---- *)
+Require Import RQ.CurveMetric.
+
+(* (9) between two vertices the chord differs from the exact quadratic by exactly (p1-2c+p2) j(n'-j)/(n n')^2,
+   at most |p1-2c+p2|/(4 n^2) (denominator-free) *)
+Theorem C08_chord_curve_gap_partial : forall p1 c p2 n n' k j, 0 <= j <= n' ->
+  4 * Z.abs (n' * ((n' - j) * bez_num p1 c p2 n k + j * bez_num p1 c p2 n (k + 1)) - bez_num p1 c p2 (n * n') (k * n' + j))
+  <= Z.abs (bez_dev p1 c p2) * (n' * n').
+Proof. exact chord_curve_gap_bound. Qed.
+Print Assumptions C08_chord_curve_gap_partial.
+
+(* (10) the subdivision count chosen by the code is enough: with D the larger coordinate of the deviation vector (dot2),
+   D + 2 <= 4 * 4^s, i.e. the chord-to-curve gap is below a quarter pixel, unless the count is clamped at 64 segments,
+   which needs a deviation of at least 10922 dot2 = 2730 px *)
+Theorem C08_subdivision_is_enough_partial : forall x1 y1 x2 y2 cx cy,
+  let s := curve_shift x1 y1 x2 y2 cx cy in
+  let n := 2 ^ s in
+  let D := curve_dev x1 y1 x2 y2 cx cy in
+  D + 2 <= 4 * (n * n) \/ (s = 6 /\ 10922 <= D).
+Proof. exact shift_is_enough. Qed.
+Print Assumptions C08_subdivision_is_enough_partial.
+
+(* (11) the polyline the rasteriser scans stays within ONE PIXEL of the exact curve, per coordinate, at every point of
+   every segment, for all control points within +-4000 px (units of 2^-16 px: 64129 < 65536; 16513 = 0.25 px when the
+   deviation is below 2730 px: polyline_close_to_curve_unclamped); t = (k n' + j)/(n n'), statement multiplied by (n n')^2 *)
+Theorem C08_polyline_within_a_pixel_of_the_curve_partial : forall x1 y1 x2 y2 cx cy k n' j,
+  let s := curve_shift x1 y1 x2 y2 cx cy in
+  let n := 2 ^ s in let N := n * n' in
+  Z.abs x1 <= 16000 -> Z.abs x2 <= 16000 -> Z.abs cx <= 16000 ->
+  Z.abs y1 <= 16000 -> Z.abs y2 <= 16000 -> Z.abs cy <= 16000 ->
+  0 <= k < n -> 0 < n' -> 0 <= j <= n' ->
+  (- (N * N * 64000) <= 16384 * bez_num x1 cx x2 N (k * n' + j) - n * n * n' * poly_num x1 x2 cx s k n' j <= N * N * 64129) /\
+  (- (N * N * 64000) <= 16384 * bez_num y1 cy y2 N (k * n' + j) - n * n * n' * poly_num y1 y2 cy s k n' j <= N * N * 64129).
+Proof. exact polyline_close_to_curve_in_range. Qed.
+Print Assumptions C08_polyline_within_a_pixel_of_the_curve_partial.
